@@ -1,5 +1,5 @@
 //verif:pkg internal/spynode
-//verif:kit memstore nodekit interleave
+//verif:kit memstore nodekit synckit worldkit interleave
 package spynode
 
 // C04 — merkle proofs on confirmations; bad-merkle blocks are refused.
@@ -404,4 +404,56 @@ func VerifHarness_C04_late_subscription() {
 		verifrt.Assert(p != nil && p.IsValid(txid) == nil && int(p.Index) == 2 && got[0].state.UnconfirmedDepth == 0, "C04.late-subscription.with-a-valid-proof")
 	}
 	verifrt.Reach("C04.late-subscription.done")
+}
+
+// VerifHarness_C04_reorg: a relevant transaction confirmed in block a1; the peer reorganises to
+// b1-b2 with b1 confirming it again; in between (after the revert, before b1 is processed) the
+// transaction may be announced again as unconfirmed.  Whatever kind the re-confirmation's
+// notification has, it carries a proof for the block the node holds at that height now.
+func VerifHarness_C04_reorg() {
+	ctx := context.Background()
+	k, err := vkNewNode(ctx, nil)
+	verifrt.Assert(err == nil, "C04.kit.node-loads")
+	k.node.state.SetVersionReceived()
+	k.node.state.MarkConnected()
+	t := vkTx(45, []int{11}, true)
+	txid := *t.TxHash()
+	tree := vkNewTree(*k.node.blocks.LastHash())
+	tree.add("a0", "", nil)
+	tree.add("a1", "a0", []*wire.MsgTx{t})
+	tree.add("b1", "a0", []*wire.MsgTx{vkTx(46, []int{12}, false), t})
+	tree.add("b2", "b1", nil)
+	w := &c01World{ctx: ctx, k: k, tree: tree, heard: map[string]bool{}}
+	w.peer = vkNewPeer(tree, "a1")
+	w.settle(4)
+	verifrt.Assert(w.converged() && len(k.rec.of("tx", txid)) == 1, "C04.reorg.first-confirmation-delivered")
+	w.peer.setBest("b2")
+	w.deliver() // the announcement of the new branch: a1 is reverted, b1 and b2 are requested
+	verifrt.Assert(k.node.blocks.LastHeight() == 1, "C04.reorg.reverted")
+	mark := len(k.rec.events)
+	if verifrt.Choose("announced-again-unconfirmed", 2) == 1 {
+		perr := k.node.processUnconfirmedTx(ctx, handlers.TxData{Msg: t, Trusted: true, ConfirmedHeight: -1})
+		verifrt.Assert(perr == nil, "C04.unconfirmed.processed")
+		verifrt.Reach("C04.reorg.re-announced")
+	}
+	w.settle(6)
+	verifrt.Assert(w.converged(), "C04.reorg.node-follows-the-reorganisation")
+	held, herr := k.node.blocks.Header(ctx, 2)
+	verifrt.Assert(herr == nil && held != nil && *held.BlockHash() == tree.hashes["b1"], "C04.reorg.b1-held")
+	// the notification produced by processing b1
+	var last *vkEvent
+	for i := range k.rec.events[mark:] {
+		e := &k.rec.events[mark+i]
+		if e.txid == txid && (e.kind == "tx" || e.kind == "update") && e.hasProof {
+			last = e
+		}
+	}
+	verifrt.Sig("reorg", "notified")
+	verifrt.Assert(last != nil, "C04.reorg.re-confirmation-is-notified-with-a-proof")
+	if last != nil {
+		p := last.state.MerkleProof
+		verifrt.Sig("reorg", "proof")
+		verifrt.Assert(p.BlockHeader == *held && p.IsValid(txid) == nil && int(p.Index) == 2 && last.state.UnconfirmedDepth == 0, "C04.reorg.proof-is-for-the-block-held-at-that-height")
+	}
+	verifrt.Reach("C04.reorg.done")
 }
